@@ -16,3 +16,6 @@ def run(ctx):
     R.floor("ORD-1", 90)
     from rules.C01 import wire_and_consumption
     wire_and_consumption(ctx, cons=False)
+    from rules import lib_wirep
+    lib_wirep.check_all(ctx, "WIRE-PH")
+    R.floor("WIRE-PH", 3)
